@@ -35,7 +35,7 @@ const (
 )
 
 func TestMain(m *testing.M) {
-	vlib.Rule("C14: a topology with one volume layout (1-2 volumes, 1-3 replicas each, replication 1-3 copies, replicationAsMin on/off, master-side read-only flags) whose data nodes are in-process gRPC volume-server fakes scripted per replica and phase (check above/below/error, compact ok/error, commit ok/error/ok+readOnly, cleanup ok/error; errors as application errors or as 'transport' errors that drop the cached connection). TestPropVacuumScriptsExhaustive enumerates the full product of per-replica scripts (quick: 1-2 replicas in full plus every distinct reachable projection for 3 replicas; thorough: the full 36^n product for n=1..3); TestPropVacuumInitialStatesExhaustive crosses every reachable script with the initial states (missing / surplus replica, replicationAsMin, read-only replica); TestPropVacuumMidRoundEventsExhaustive crosses every reachable script (quick: 1-2 replicas, thorough: 1-3) with every mid-round topology event (a replica's server goes down = its data node is unregistered and it fails all later RPCs, or a heartbeat reports a replica read-only; performed once, synchronously, inside the fake's check/compact/commit handler before it answers); TestPropVacuumRounds samples multi-volume, multi-round sequences with heartbeats in between and such mid-round events in ~40% of the rounds; TestPropVacuumRealStores puts real storage.Store volumes (generated content with garbage) behind the fakes, with errors injected before or after the real compact/commit and client writes/deletes arriving in the middle of the round, and compares every replica with the clients' model afterwards. Non-trivial = a round in which at least one replica received a compact RPC and (the volume has >=2 replicas or some RPC of the round answered with an error / read-only).")
+	vlib.Rule("C14: a topology with one volume layout (1-2 volumes, 1-3 replicas each, replication 1-3 copies, replicationAsMin on/off, master-side read-only flags) whose data nodes are in-process gRPC volume-server fakes scripted per replica and phase (check above/below/error, compact ok/error, commit ok/error/ok+readOnly, cleanup ok/error; errors as application errors or as 'transport' errors that drop the cached connection). TestPropVacuumScriptsExhaustive enumerates the full product of per-replica scripts (quick: 1-2 replicas in full plus every distinct reachable projection for 3 replicas; thorough: the full 36^n product for n=1..3); TestPropVacuumInitialStatesExhaustive crosses every reachable script with the initial states (missing / surplus replica, replicationAsMin, read-only replica); TestPropVacuumMidRoundEventsExhaustive crosses every reachable script (quick: 1-2 replicas, thorough: 1-3) with every mid-round topology event (a replica's server goes down = its data node is unregistered and it fails all later RPCs, a heartbeat reports a replica read-only, or 1-3 further Topology.Vacuum calls arrive (they must return without sending any RPC: rounds are mutually exclusive); performed once, synchronously, inside the fake's check/compact/commit handler before it answers); TestPropVacuumRounds samples multi-volume, multi-round sequences with heartbeats in between and such mid-round events in ~40% of the rounds; TestPropVacuumRealStores puts real storage.Store volumes (generated content with garbage) behind the fakes, with errors injected before or after the real compact/commit and client writes/deletes arriving in the middle of the round, and compares every replica with the clients' model afterwards. Non-trivial = a round in which at least one replica received a compact RPC and (the volume has >=2 replicas or some RPC of the round answered with an error / read-only).")
 	vlib.Assume("C14: volume servers are fakes that answer immediately from a script; the minutes-long RPC wait timeouts of the vacuum batches (1-3 min x volumeSizeLimit) are never reached, so the 'timeout' outcome of the quantifier is not explored. Replica content is not modelled in the scripted tiers (only in TestPropVacuumRealStores): there 'same live content' is reduced to the RPC-history invariants (commit only after that replica's own successful compact of the same round; every compacted replica is committed or cleaned up). Volumes are below the size limit (a vacuum legitimately re-offers a shrunk volume).")
 	vlib.Assume("C14: 'writable had no vacuum been attempted' is read off a twin topology that receives the same registrations, heartbeats and data-node losses but never runs a vacuum; where the twin disagrees with the membership rule (enough live copies, no replica reported read-only) the no-vacuum answer is ambiguous and nothing is demanded (class writable-without-vacuum-ambiguous). Also, a replica answering commit with IsReadOnly=true makes 'not writable' the expected state (the master has learnt that a replica is read-only).")
 	quietGlog()
@@ -95,6 +95,8 @@ type world struct {
 	twinDns map[int]*topology.DataNode
 	dead    map[int]bool    // servers that went down (data node unregistered)
 	roTruth map[[2]int]bool // (server, vid): the replica is read-only on its server
+	overlap string          // set by an overlapping-calls event: what went wrong
+	fired   bool            // the armed mid-round event was performed
 }
 
 func (w *world) layout() *topology.VolumeLayout {
@@ -209,16 +211,28 @@ type midEvent struct {
 	vid    uint32
 	at     int
 	target int
+	// evOverlap: while the handler is held, k further Topology.Vacuum calls are made (one after the
+	// other, each returning before the next) with `nested` as the replicas' answers for any round they start
+	k      int
+	nested []repScript
 }
 
 const (
 	evDie = iota + 1
 	evReadOnly
+	evOverlap
 )
 
 func (e *midEvent) String() string {
 	if e == nil {
 		return ""
+	}
+	if e.kind == evOverlap {
+		var p []string
+		for _, sc := range e.nested {
+			p = append(p, "{"+sc.String()+"}")
+		}
+		return fmt.Sprintf(" event{%d more Vacuum call(s) arrive while s%d answers %s(v%d); replicas would answer a round of theirs with %s}", e.k, e.at, e.phase, e.vid, strings.Join(p, " "))
 	}
 	if e.kind == evDie {
 		return fmt.Sprintf(" event{s%d goes down (data node unregistered) while answering %s(v%d)}", e.at, e.phase, e.vid)
@@ -231,7 +245,9 @@ func (w *world) arm(e *midEvent) {
 	if e == nil {
 		return
 	}
+	w.fired = false
 	w.f.setEvent(e.at, e.vid, e.phase, func() bool {
+		w.fired = true
 		switch e.kind {
 		case evDie:
 			if w.dead[e.at] {
@@ -242,6 +258,32 @@ func (w *world) arm(e *midEvent) {
 			w.dead[e.at] = true
 			vlib.Class("mid-round:server-down@" + e.phase)
 			return true
+		case evOverlap:
+			// Vacuum calls that arrive while a round is in progress: the rounds are mutually
+			// exclusive, so these calls must return without sending anything
+			var vol volSpec
+			for _, v := range w.sp.vols {
+				if v.vid == e.vid {
+					vol = v
+				}
+			}
+			outer := w.f.scriptsOf(vol.replicas, e.vid)
+			for i, srv := range vol.replicas {
+				w.f.set(srv, e.vid, e.nested[i])
+			}
+			before := w.f.logLen()
+			for i := 0; i < e.k; i++ {
+				w.topo.Vacuum(grpc.WithInsecure(), w.sp.threshold, 0)
+			}
+			if sent := w.f.logLen() - before; sent > 0 {
+				w.overlap = fmt.Sprintf("%d RPC(s) were sent by Vacuum calls that arrived while the round was still waiting for s%d's %s answer: a second round ran inside the first", sent, e.at, e.phase)
+			}
+			for i, srv := range vol.replicas {
+				if outer[i] != nil {
+					w.f.set(srv, e.vid, *outer[i])
+				}
+			}
+			vlib.Class(fmt.Sprintf("mid-round:%d-overlapping-vacuum-calls@%s", e.k, e.phase))
 		case evReadOnly:
 			for vi := range w.sp.vols {
 				v := &w.sp.vols[vi]
@@ -287,6 +329,9 @@ func (w *world) roundWith(rs roundScripts, ev *midEvent) map[uint32]verdict {
 			}
 		}
 		out[v.vid] = w.judge(v, evs)
+	}
+	if w.overlap != "" {
+		w.fail("%s", w.overlap)
 	}
 	for _, e := range log {
 		known := false
@@ -359,6 +404,17 @@ func (w *world) judge(v volSpec, evs []event) verdict {
 			}
 			if !compacted {
 				w.fail("volume %d: commit was sent to replica s%d (%s) whose compaction did not succeed in this round", v.vid, e.server, e)
+			}
+			// ... and it must be that replica's latest compaction, not yet committed or cleaned up
+			for j := i - 1; j >= 0; j-- {
+				l := evs[j]
+				if l.server != e.server || l.phase == "check" {
+					continue
+				}
+				if l.phase != "compact" || !l.ok {
+					w.fail("volume %d: commit was sent to replica s%d (%s) although the last thing that replica did before was %s: its compaction output is gone or was never produced", v.vid, e.server, e, l)
+				}
+				break
 			}
 		case "cleanup":
 			nCleanup++
@@ -548,7 +604,7 @@ func oneVolumeEvent(t failer, n int, sc []repScript, ev midEvent) {
 	e := ev
 	v := w.roundWith(rs, &e)[1]
 	fired := "event-fired"
-	if !w.dead[ev.at] && !w.roTruth[[2]int{ev.target, 1}] {
+	if !w.fired {
 		fired = "event-not-reached"
 	}
 	vlib.Case(sp.String()+" | "+scriptsString(sp, rs)+e.String()+" => "+v.class, v.nontrivial && fired == "event-fired", "mid-round-event:"+v.class, fmt.Sprintf("replicas=%d", n), fired)
@@ -576,6 +632,14 @@ func TestPropVacuumMidRoundEventsExhaustive(t *testing.T) {
 					evs := []midEvent{{kind: evDie, phase: phase, vid: 1, at: at, target: at}}
 					for target := 0; target < n; target++ {
 						evs = append(evs, midEvent{kind: evReadOnly, phase: phase, vid: 1, at: at, target: target})
+					}
+					// further Vacuum calls arriving while this handler is held; the answers the replicas
+					// would give to a round of those calls: all fine, or the first replica's compaction fails
+					for k := 1; k <= vlib.Pick(2, 3); k++ {
+						allOK, firstFails := make([]repScript, n), make([]repScript, n)
+						firstFails[0].compact = cpErr
+						evs = append(evs, midEvent{kind: evOverlap, phase: phase, vid: 1, at: at, k: k, nested: allOK},
+							midEvent{kind: evOverlap, phase: phase, vid: 1, at: at, k: k, nested: firstFails})
 					}
 					for _, ev := range evs {
 						if vlib.ShardOwns(item) {
@@ -731,11 +795,21 @@ func TestPropVacuumRounds(t *testing.T) {
 				}
 				if len(alive) > 0 {
 					ev = &midEvent{
-						kind:   rapid.SampledFrom([]int{evDie, evReadOnly, evReadOnly}).Draw(t, fmt.Sprintf("r%d.event.kind", r)),
+						kind:   rapid.SampledFrom([]int{evDie, evReadOnly, evReadOnly, evOverlap, evOverlap}).Draw(t, fmt.Sprintf("r%d.event.kind", r)),
 						phase:  rapid.SampledFrom([]string{"check", "compact", "compact", "commit"}).Draw(t, fmt.Sprintf("r%d.event.phase", r)),
 						vid:    v.vid,
 						at:     rapid.SampledFrom(alive).Draw(t, fmt.Sprintf("r%d.event.at", r)),
 						target: rapid.SampledFrom(alive).Draw(t, fmt.Sprintf("r%d.event.target", r)),
+					}
+				}
+			}
+			if ev != nil && ev.kind == evOverlap {
+				ev.k = rapid.IntRange(1, 3).Draw(t, fmt.Sprintf("r%d.event.calls", r))
+				for _, v := range sp.vols {
+					if v.vid == ev.vid {
+						for i := range v.replicas {
+							ev.nested = append(ev.nested, genScript(t, fmt.Sprintf("r%d.event.nested.%d", r, i), false))
+						}
 					}
 				}
 			}
